@@ -318,7 +318,8 @@ func (g *c02Gen) points(side string) c02Op {
 	n := g.pick(side)
 	var ps []sPoint
 	for k := 0; k < 1+g.r.Intn(2); k++ {
-		ps = append(ps, sPoint{Type: []string{"value", "description", "units"}[g.r.Intn(3)], Key: []string{"", "1", "2", "3"}[g.r.Intn(4)],
+		// (an untyped point is a point like any other: its identity is ("", key))
+		ps = append(ps, sPoint{Type: []string{"value", "description", "units", "value", "description", ""}[g.r.Intn(6)], Key: []string{"", "1", "2", "3"}[g.r.Intn(4)],
 			Time: g.tick(), VBits: math.Float64bits(float64(g.r.Intn(100))), Text: []string{"", "x", "söme"}[g.r.Intn(3)]})
 		if g.r.Intn(4) == 0 {
 			// a point-level deletion (the tombstone counter of the point itself) or a binary payload: fields that the
